@@ -12,13 +12,16 @@ RULE = ("streams: (M) matcher (select=all, ion_priority) on imbalance vectors ov
 ASSUMPTIONS = ["RDKit gives the true composition of a database SMILES (oracle columns of Gen/GenRules.v)",
                "the RDKit validity test inside get_and_validate_smiles is true for joined database SMILES (observed on every case)"]
 TRUSTED = ["RDKit for true compositions of database compounds and added molecules"]
-HDR = ("From Coq Require Import String ZArith List Bool.\nFrom SynRBL Require Import Base.Dict Base.Strs Base.ListX Model.Comp Model.Matcher Model.Constraint Gen.GenRules Gen.GenConst.\n"
+HDR = ("From Coq Require Import String ZArith List Bool.\nFrom SynRBL Require Import Base.Dict Base.Strs Base.ListX Model.Comp Model.Matcher Model.Constraint Proofs.MatcherTermination Gen.GenRules Gen.GenConst.\n"
        "Import ListNotations.\nOpen Scope string_scope. Open Scope Z_scope.\n")
 DEFS = """
 Definition item_eq (a b : string * Z) : bool := String.eqb (fst a) (fst b) && (snd a =? snd b).
 Definition db_of (n : nat) : list rule := match n with O => rules_manager | S O => automated_rules | _ => (rules_manager ++ automated_rules)%list end.
 Definition mt (n : nat) (d : dict) (e : option (list (list (string * Z)))) : bool :=
-  opt_eqb (list_eqb (list_eqb item_eq)) (option_map (map render_path) (match_all 80 (db_of n) d)) e.
+  opt_eqb (list_eqb (list_eqb item_eq)) (option_map (map render_path) (match_all 80 (db_of n) d)) e &&
+  (* the fuel bound of C08_solver_terminates: one more than the atoms of the imbalance gives the same answer *)
+  (negb (forallb (fun kv => String.eqb (fst kv) "Q" || (snd kv >=? 0)) d) ||   (* the theorem is about imbalances without negative entries *)
+   opt_eqb (list_eqb (list_eqb item_eq)) (option_map (map render_path) (match_all (S (Z.to_nat (atoms_of d))) (db_of n) d)) e).
 Definition pair_eq (a b : string * string) : bool := String.eqb (fst a) (fst b) && String.eqb (snd a) (snd b).
 Definition si (n : nat) (d : dict) (tp : bool) (r p : string) (e : option (option (string * string))) : bool :=
   opt_eqb (opt_eqb pair_eq) (single_impute 80 (db_of n) d tp r p) e.
